@@ -1,1 +1,130 @@
+//! Shared plumbing for the corelib-mon harness binaries: per-case seeded RNGs,
+//! a thread fan-out whose result does not depend on the number of threads, report
+//! merging and a thread-safe panic catcher.
+use serde_json::Value;
+use std::cell::RefCell;
+use vkit::{Report, Rng};
 
+pub fn threads() -> usize {
+    if let Ok(v) = std::env::var("VERIF_THREADS") {
+        if let Ok(n) = v.parse::<usize>() {
+            return n.max(1);
+        }
+    }
+    std::thread::available_parallelism().map(|n| n.get()).unwrap_or(4).min(32)
+}
+
+/// RNG of case `i` of stream `tag` under `seed`: independent of scheduling.
+pub fn case_rng(seed: u64, tag: u64, i: u64) -> Rng {
+    let mut r = Rng::new(seed ^ tag.wrapping_mul(0x9E3779B97F4A7C15));
+    let a = r.next();
+    Rng::new(a ^ i.wrapping_mul(0xD1342543DE82EF95).rotate_left(17) ^ i)
+}
+
+pub fn merge(into: &mut Report, from: Report) {
+    into.evaluations += from.evaluations;
+    for d in from.distinct {
+        if into.distinct.len() < 400_000 {
+            into.distinct.insert(d);
+        }
+    }
+    for s in from.samples {
+        into.sample(s);
+    }
+    for v in &from.violations {
+        into.violation(
+            v["signature"].as_str().unwrap_or("?"),
+            v["what"].as_str().unwrap_or(""),
+            v["replay"].clone(),
+        );
+    }
+    for (k, n) in from.inconclusive {
+        *into.inconclusive.entry(k).or_insert(0) += n;
+    }
+    for (k, n) in from.counters {
+        *into.counters.entry(k).or_insert(0) += n;
+    }
+    for (k, v) in from.extra {
+        into.extra.insert(k, v);
+    }
+    for a in from.assumptions {
+        into.assume(&a);
+    }
+}
+
+/// Run cases `0..n` of stream `tag`; case `i` gets `case_rng(seed, tag, i)`.
+/// Work is split over threads by index; per-thread reports are merged in
+/// thread order, so everything except sample choice is schedule independent.
+pub fn fan_out<F>(rep: &mut Report, seed: u64, tag: u64, n: u64, f: F)
+where
+    F: Fn(&mut Rng, u64, &mut Report) + Sync,
+{
+    let t = threads().min(n.max(1) as usize);
+    let max_samples = rep.max_samples;
+    let parts: Vec<Report> = std::thread::scope(|s| {
+        let mut hs = vec![];
+        for k in 0..t {
+            let f = &f;
+            hs.push(s.spawn(move || {
+                let mut r = Report::new("");
+                r.max_samples = max_samples;
+                let mut i = k as u64;
+                while i < n {
+                    let mut rng = case_rng(seed, tag, i);
+                    f(&mut rng, i, &mut r);
+                    i += t as u64;
+                }
+                r
+            }));
+        }
+        hs.into_iter().map(|h| h.join().expect("worker thread panicked")).collect()
+    });
+    for p in parts {
+        merge(rep, p);
+    }
+}
+
+thread_local! {
+    static LAST_PANIC: RefCell<Option<(String, String)>> = const { RefCell::new(None) };
+}
+
+/// Run `f`, capturing a panic as (message, file:line).  Thread safe.
+pub fn catch<F: FnOnce() -> R, R>(f: F) -> Result<R, (String, String)> {
+    static INIT: std::sync::Once = std::sync::Once::new();
+    INIT.call_once(|| {
+        std::panic::set_hook(Box::new(|info| {
+            let msg = if let Some(s) = info.payload().downcast_ref::<&str>() {
+                s.to_string()
+            } else if let Some(s) = info.payload().downcast_ref::<String>() {
+                s.clone()
+            } else {
+                "<non-string panic>".to_string()
+            };
+            let loc = info.location().map(|l| format!("{}:{}", l.file(), l.line())).unwrap_or_default();
+            LAST_PANIC.with(|c| *c.borrow_mut() = Some((msg, loc)));
+        }));
+    });
+    match std::panic::catch_unwind(std::panic::AssertUnwindSafe(f)) {
+        Ok(r) => Ok(r),
+        Err(_) => Err(LAST_PANIC.with(|c| c.borrow_mut().take()).unwrap_or_default()),
+    }
+}
+
+/// Shorten a string for `what` messages.
+pub fn clip(s: &str, n: usize) -> String {
+    if s.chars().count() <= n {
+        s.to_string()
+    } else {
+        let t: String = s.chars().take(n).collect();
+        format!("{t}…")
+    }
+}
+
+pub fn jstr(v: &Value) -> String {
+    serde_json::to_string(v).unwrap_or_default()
+}
+
+/// `--replay-case I` support: when set only that case index of a stream runs.
+pub fn only_case(args: &vkit::Args) -> Option<u64> {
+    args.get("case").and_then(|s| s.parse().ok())
+}
